@@ -437,11 +437,19 @@ def run(ctx):
                 "tunnel_losses_declared", "stopped_runs")
     loop = new_loop()
     idx = 0
+    done_here = 0
     try:
         for script in scripts_upto(n):
             idx += 1
             if not ctx.mine(idx):
                 continue
+            done_here += 1
+            if done_here % 2000 == 0:
+                # keep the virtual clock small: at ~1e8 s a 10 ms timer is below float resolution of the clock
+                leaked = loop.finish()
+                if leaked:
+                    ctx.count("tasks_cancelled_at_loop_end_recorded", len(leaked))
+                loop = new_loop()
             judge_script(ctx, loop, script)
             if len(script) <= n_stop:
                 for k in range(len(script) + 1):
